@@ -159,7 +159,13 @@ fn map_opt(rng: &mut Rng, iommus: &[usize], k: Option<u64>) -> Sx {
 
 fn ascii_name(rng: &mut Rng, n: u64) -> Sx {
     const ALPHA: &[u8] = b"ABCDEFGHIJKLMNOPQRSTUVWXYZ0123456789._\\";
-    bytes(&(0..n).map(|_| *rng.pick(ALPHA)).collect::<Vec<u8>>())
+    let mut v = (0..n).map(|_| *rng.pick(ALPHA)).collect::<Vec<u8>>();
+    // one name in eight is unusual but legal for a Rust String: NUL bytes at the end (1..4) or inside, blanks at either end,
+    // DEL, a two-byte UTF-8 character (the length is counted in bytes)
+    if rng.chance(1, 8) {
+        crate::tcommon::odd_string(rng, &mut v);
+    }
+    bytes(&v)
 }
 
 /// sub-element count: None = the Option is absent
@@ -294,6 +300,19 @@ pub fn gen(tier: &str, rng: &mut Rng, emit: &mut Emit) {
         let rc = pcierc_op(rng, &[], t1, k);
         let pf = platform_op(rng, &[], 7, k);
         emit_ops(rng, emit, vec![rc, pf]);
+    }
+    // platform names that already carry NUL bytes: k trailing NULs after names of both parities, a lone NUL, an inner NUL
+    for base in [&b"DEV0"[..], &b"DEV"[..], &b""[..], &b"A\0B"[..]] {
+        for k in 0..=4usize {
+            let mut nm = base.to_vec();
+            nm.extend(std::iter::repeat(0u8).take(k));
+            for with_map in [false, true] {
+                let m = if with_map { map_opt(rng, &[], Some(0)) } else { map_opt(rng, &[], None) };
+                let pf = l(vec![a(3), a(rng.val(16)), bytes(&nm), m]);
+                let after = platform_op(rng, &[], 3, None);
+                emit_ops(rng, emit, vec![pf, after]);
+            }
+        }
     }
     // platform names of length 0..40 (both parities), with and without mappings
     for n in 0..=40u64 {
